@@ -164,10 +164,10 @@ func Dataflow(d DataflowParams) *Program {
 	needGen := d.Src == "gen"
 	switch d.Src {
 	case "lit":
-		srcE = Lit(genValue(p, srcT, n, "lit"))
+		srcE = TLit(p, genValue(p, srcT, n, "lit"), srcT)
 	case "input":
 		top.Ins = append(top.Ins, Param{T: srcT, Name: "p"})
-		topCall.Binds = append(topCall.Binds, Bind{"p", Lit(genValue(p, srcT, n, "inp"))})
+		topCall.Binds = append(topCall.Binds, Bind{"p", TLit(p, genValue(p, srcT, n, "inp"), srcT)})
 		srcE = Self("p")
 	case "gen":
 		srcE = Ref("GEN", genOut(d.Kind))
@@ -511,8 +511,9 @@ func FixUnused(p *Program) {
 // DisNestParams: Levels[i] is the control of wrapper pipeline i+1 (outermost
 // first), Sib the controls of the two sibling stage calls in the innermost
 // pipeline.  Controls: "p","q" (two outputs of one stage), "c" (another
-// stage), "f" (a pipeline input bound to a literal), "-" (none).
-// Vals gives the truth value of p,q,c,f (bit 0..3).
+// stage), "r","s" (two outputs of a third stage), "f" (a pipeline input bound
+// to a literal), "-" (none).
+// Vals gives the truth value of p,q,c,f,r,s (bit 0..5).
 type DisNestParams struct {
 	Levels []string
 	Sib    [2]string
@@ -520,7 +521,7 @@ type DisNestParams struct {
 }
 
 func (d DisNestParams) String() string {
-	return fmt.Sprintf("disnest{levels=%s sib=%s,%s vals=%04b}", strings.Join(d.Levels, ""), d.Sib[0], d.Sib[1], d.Vals)
+	return fmt.Sprintf("disnest{levels=%s sib=%s,%s vals=%06b}", strings.Join(d.Levels, ""), d.Sib[0], d.Sib[1], d.Vals)
 }
 
 func DisNest(d DisNestParams) *Program {
@@ -533,11 +534,15 @@ func DisNest(d DisNestParams) *Program {
 	top := &Pipeline{Name: "TOP", Ins: []Param{{T: IntT, Name: "n"}, {T: BoolT, Name: "f"}}}
 	top.Calls = append(top.Calls,
 		&Call{Callee: "CTRL", Binds: []Bind{{"a", Lit(Int(bit(0)))}, {"b", Lit(Int(bit(1)))}}},
-		&Call{Callee: "COND", Binds: []Bind{{"n", Lit(Int(bit(2)))}}})
-	ctlTop := map[string]*Exp{"p": Ref("CTRL", "p"), "q": Ref("CTRL", "q"), "c": Ref("COND", "b"), "f": Self("f")}
-	ctlIn := map[string]*Exp{"p": Self("dp"), "q": Self("dq"), "c": Self("dc"), "f": Self("df")}
-	ctlParams := []Param{{T: BoolT, Name: "dp"}, {T: BoolT, Name: "dq"}, {T: BoolT, Name: "dc"}, {T: BoolT, Name: "df"}}
-	passDown := []Bind{{"dp", Self("dp")}, {"dq", Self("dq")}, {"dc", Self("dc")}, {"df", Self("df")}}
+		&Call{Callee: "COND", Binds: []Bind{{"n", Lit(Int(bit(2)))}}},
+		&Call{Callee: "CTRL", Alias: "CTRL2", Binds: []Bind{{"a", Lit(Int(bit(4)))}, {"b", Lit(Int(bit(5)))}}})
+	ctlTop := map[string]*Exp{"p": Ref("CTRL", "p"), "q": Ref("CTRL", "q"), "c": Ref("COND", "b"), "f": Self("f"),
+		"r": Ref("CTRL2", "p"), "s": Ref("CTRL2", "q")}
+	ctlIn := map[string]*Exp{"p": Self("dp"), "q": Self("dq"), "c": Self("dc"), "f": Self("df"), "r": Self("dr"), "s": Self("ds")}
+	ctlParams := []Param{{T: BoolT, Name: "dp"}, {T: BoolT, Name: "dq"}, {T: BoolT, Name: "dc"}, {T: BoolT, Name: "df"},
+		{T: BoolT, Name: "dr"}, {T: BoolT, Name: "ds"}}
+	passDown := []Bind{{"dp", Self("dp")}, {"dq", Self("dq")}, {"dc", Self("dc")}, {"df", Self("df")},
+		{"dr", Self("dr")}, {"ds", Self("ds")}}
 	L := len(d.Levels)
 	mkSib := func(name string, k int64, ctl string, in map[string]*Exp, x *Exp) *Call {
 		c := &Call{Callee: "ADD", Alias: name, Binds: []Bind{{"a", x}, {"b", Lit(Int(k))}}}
@@ -568,7 +573,8 @@ func DisNest(d DisNestParams) *Program {
 			p.Pipelines = append(p.Pipelines, w)
 		}
 		c := &Call{Callee: "P1", Binds: []Bind{{"x", Self("n")},
-			{"dp", ctlTop["p"]}, {"dq", ctlTop["q"]}, {"dc", ctlTop["c"]}, {"df", ctlTop["f"]}}}
+			{"dp", ctlTop["p"]}, {"dq", ctlTop["q"]}, {"dc", ctlTop["c"]}, {"df", ctlTop["f"]},
+			{"dr", ctlTop["r"]}, {"ds", ctlTop["s"]}}}
 		if ctl := d.Levels[0]; ctl != "-" {
 			c.Disabled = ctlTop[ctl]
 		}
@@ -591,6 +597,7 @@ func DisNest(d DisNestParams) *Program {
 // controls are injective selections or one control repeated; full: all.
 func DisNestFamily(full bool) []DisNestParams {
 	ctl := []string{"p", "q", "c", "f"}
+	allCtl := []string{"p", "q", "c", "f", "r", "s"}
 	var levelSets [][]string
 	var rec func(cur []string, depth int)
 	maxL := 3
@@ -625,11 +632,12 @@ func DisNestFamily(full bool) []DisNestParams {
 		}
 	}
 	rec(nil, 0)
-	sibs := [][2]string{{"-", "-"}, {"p", "q"}, {"q", "p"}, {"c", "-"}, {"f", "p"}, {"p", "f"}, {"c", "q"}}
+	sibs := [][2]string{{"-", "-"}, {"p", "q"}, {"q", "p"}, {"c", "-"}, {"f", "p"}, {"p", "f"}, {"c", "q"},
+		{"r", "s"}, {"s", "r"}, {"r", "-"}}
 	if full {
 		sibs = nil
-		for _, a := range append([]string{"-"}, ctl...) {
-			for _, b := range append([]string{"-"}, ctl...) {
+		for _, a := range append([]string{"-"}, allCtl...) {
+			for _, b := range append([]string{"-"}, allCtl...) {
 				sibs = append(sibs, [2]string{a, b})
 			}
 		}
@@ -637,7 +645,26 @@ func DisNestFamily(full bool) []DisNestParams {
 	var out []DisNestParams
 	for _, ls := range levelSets {
 		for _, sb := range sibs {
-			for v := 0; v < 16; v++ {
+			// only the controls that occur matter: enumerate all valuations
+			// of those, the others stay false
+			used := map[string]bool{}
+			for _, c := range ls {
+				used[c] = true
+			}
+			used[sb[0]], used[sb[1]] = true, true
+			var bits []int
+			for i, c := range []string{"p", "q", "c", "f", "r", "s"} {
+				if used[c] {
+					bits = append(bits, i)
+				}
+			}
+			for m := 0; m < 1<<len(bits); m++ {
+				v := 0
+				for j, b := range bits {
+					if m&(1<<j) != 0 {
+						v |= 1 << b
+					}
+				}
 				out = append(out, DisNestParams{Levels: ls, Sib: sb, Vals: v})
 			}
 		}
